@@ -402,6 +402,14 @@ impl core::fmt::Debug for Tok {
             1 => "#b",
             2 => "#c",
             _ => "#d",
-        })
+        })?;
+        // ... followed by one token per formatter option the element receives, so that an implementation which builds fresh
+        // format arguments for its elements (`write!(f, "{:?}", e)`) is told apart from one that hands its formatter on
+        if f.width().is_some() { f.write_str("w")?; }
+        if f.precision().is_some() { f.write_str("p")?; }
+        if f.sign_plus() { f.write_str("+")?; }
+        if f.sign_aware_zero_pad() { f.write_str("0")?; }
+        if f.options().get_debug_as_hex().is_some() { f.write_str("x")?; }
+        Ok(())
     }
 }
